@@ -11,7 +11,7 @@ package didnuts
 //@ func (didstore.Store).Resolve
 //@   trusted
 //@   benign
-//@   ensures isNilIface(result.2) ==> result.0 != nil
+//@   ensures isNilIface(result.2) ==> result.0 != nil && result.1 != nil
 //@ func (dag.Transaction).*
 //@   trusted
 //@   pure
@@ -219,3 +219,24 @@ package didnuts
 //@   call append #4 requires [other-controllers-are-resolved-documents] isNilIface(ret(call resolve #1).2)
 //@        && same(arg(call resolve #1, 1), ref) && arg(call resolve #1, 0) == didResolver && arg(call resolve #1, 2) == metadata && arg(call resolve #1, 3) == depth
 //@        && same(arg(0), leaves) && len(arg(1)) == 1 && same(arg(1)[0], *ret(call resolve #1).0)
+
+// ---- C13: the rollback sweep can judge every pending change ----
+// A did:nuts DID the store has never seen (a create that stopped before the network transaction was
+// made) is NOT committed and that is not an error: an error here aborts the whole sweep, on every run.
+// Otherwise the change is committed exactly when the latest stored document is the change's document.
+//@ func (orm.DIDChangeLog).DID
+//@   trusted
+//@   pure
+//@ func hash.SHA256Sum
+//@   trusted
+//@   pure
+//@ func (hash.SHA256Hash).Equals
+//@   trusted
+//@   pure
+//@ func (Manager).IsCommitted
+//@   prop C13
+//@   ensures [a-never-published-did-is-not-committed-and-not-an-error] errors.Is(ret(call (didstore.Store).Resolve #1).2, resolver.ErrNotFound) ==> result.0 == false && isNilIface(result.1)
+//@   ensures [other-store-errors-are-reported] !errors.Is(ret(call (didstore.Store).Resolve #1).2, resolver.ErrNotFound) && !isNilIface(ret(call (didstore.Store).Resolve #1).2) ==> !isNilIface(result.1) && result.0 == false
+//@   ensures [committed-means-the-latest-stored-document-is-this-version] isNilIface(ret(call (didstore.Store).Resolve #1).2) && !errors.Is(ret(call (didstore.Store).Resolve #1).2, resolver.ErrNotFound)
+//@        ==> isNilIface(result.1) && result.0 == ret(call (hash.SHA256Hash).Equals #1) && same(arg(call (hash.SHA256Hash).Equals #1, 0), ret(call (didstore.Store).Resolve #1).1.Hash)
+//@        && same(arg(call (hash.SHA256Hash).Equals #1, 1), ret(call hash.SHA256Sum #1)) && string(arg(call hash.SHA256Sum #1, 0)) == change.DIDDocumentVersion.Raw
